@@ -141,7 +141,11 @@ func checkC05(c *Ctx) {
 	var reuse *simdjson.ParsedJson
 	ncase := 0
 	var modelBatch []PCase
+	aborted := false
 	run := func(stream string, doc []byte, nd bool) {
+		if aborted {
+			return // a call hung earlier: its goroutines are still blocked, stop exploring
+		}
 		ncase++
 		interesting := false
 		for _, fam := range families() {
@@ -157,6 +161,7 @@ func checkC05(c *Ctx) {
 					info := map[string]interface{}{"doc_hex": fmt.Sprintf("%x", trunc(string(doc), 4000)), "doc_len": len(doc), "doc_text": printable(doc), "nd": nd, "kernel": kname(fam), "copy": cp, "reuse": useReuse, "stream": stream}
 					if !ok {
 						c.Violate("hang", "Parse did not return within 30 s", "hang", info)
+						aborted = true
 						return
 					}
 					if out.Panic != "" {
@@ -174,6 +179,7 @@ func checkC05(c *Ctx) {
 						okr := withDeadline(60*time.Second, func() { pan = exerciseReads(out.PJ, c.N(60, 400), deep) })
 						if !okr {
 							c.Violate("hang", "a read method did not return within 60 s", "hang-read", info)
+							aborted = true
 							return
 						}
 						if pan != "" {
